@@ -26,10 +26,13 @@ def cases(tier, rnd):
         if rnd.random() < .7: keys.append(tuple(rnd.randint(1, 3) for _ in range(T)))          # some joint degree positive in every topology
         keys = list(dict.fromkeys(keys)); w = [rnd.randint(1, 9) for _ in keys]
         yield dict(kind="dist", T=T, keys=keys, w=w, names=rnd.sample(["2-clique", "3-clique", "red", "blue-2", "z", "a"], T), perm=rnd.sample(range(T), T))
+    for _ in range(nd // 3):
+        T = rnd.randint(1, 3); halves = list({tuple(rnd.randint(0, 2) for _ in range(T)) for _ in range(rnd.randint(1, 4))}); names = rnd.sample(["2-clique", "tri", "x", "red"], rnd.randint(1, 2))
+        yield dict(kind="matrix", T=T, names=names, mats=[[[list(a), list(b), rnd.randint(1, 9)] for a in halves for b in halves if rnd.random() < 0.7] for _ in names])
     for _ in range(nn):
         n = rnd.randint(2, 7 if tier == "quick" else 10); T = rnd.randint(1, 3); pairs = [(u, v) for u in range(n) for v in range(u + 1, n)]; rnd.shuffle(pairs)
         yield dict(kind="net", n=n, T=T, edges=[[u, v, rnd.randrange(T)] for u, v in pairs[:rnd.randint(1, len(pairs))]], names=rnd.sample(["2-clique", "tri", "x", "red"], T))
-def nontrivial(c): return c["kind"] == "net" or len(c["keys"]) >= 2
+def nontrivial(c): return c["kind"] in ("net", "matrix") or len(c["keys"]) >= 2
 def close(a, b): return abs(float(a) - float(b)) <= 1e-12 * max(1.0, abs(float(b)))
 def cmp(got, exp, clause, tag):
     if set(got) != set(exp): raise Violation(clause + ".support", f"keys {sorted(got)[:6]} vs {sorted(exp)[:6]} {tag}")
@@ -66,6 +69,17 @@ def check(c):
         if list(d) != list(names) or any(d[names[i]] is not qs[i] for i in range(T)): raise Violation("JointExcessfromJDD.convert_list_qks_to_dict.aligned", tag)
         l = guarded("JointExcessfromJDD.convert_dict_qks_to_list", JointExcessfromJDD.convert_dict_qks_to_list, d, list(reversed(names)))
         if any(l[i] is not qs[T - 1 - i] for i in range(T)): raise Violation("JointExcessfromJDD.convert_dict_qks_to_list.aligned", tag)
+    elif c["kind"] == "matrix":
+        T = c["T"]; ej = {}
+        for name, rows in zip(c["names"], c["mats"]):
+            ej[name] = {tuple(a) + tuple(b): float(w) for a, b, w in rows}
+        if any(not m for m in ej.values()): return []
+        M = guarded("JointExcessJointDegreeMatrices.__init__", JointExcessJointDegreeMatrices, {TN.EJKS: ej, TN.EDGE_NAMES: list(c["names"])})
+        qs = guarded("JointExcessFromEjk.get_excess_joint_distributions", JointExcessFromEjk.get_excess_joint_distributions, M)
+        for name in c["names"]:
+            rows = defaultdict(float)
+            for key, v in ej[name].items(): rows[key[:T]] += v
+            cmp(qs[name], dict(rows), "JointExcessFromEjk.get_excess_joint_distributions.row_sums", f"(arbitrary, not necessarily symmetric matrix) {name}: {ej[name]}")
     else:
         n, T, names = c["n"], c["T"], c["names"]; G = nx.Graph(); G.add_nodes_from(range(n)); deg = defaultdict(lambda: [0] * T)
         for u, v, t in c["edges"]: G.add_edge(u, v); G.edges[u, v][NN.TOPOLOGY] = names[t]; G.edges[u, v][NN.MOTIF_IDS] = 0; deg[u][t] += 1; deg[v][t] += 1
